@@ -31,7 +31,7 @@ __all__ = ["OFXTree", "TreeBuilder", "ParseError"]
 # stdlib imports
 import re
 import xml.etree.ElementTree as ET
-from typing import Tuple, Optional
+from typing import List, Tuple, Optional
 import logging
 
 
@@ -149,6 +149,40 @@ class TreeBuilder(ET.TreeBuilder):
         """,
         re.VERBOSE | re.DOTALL,
     )
+
+    def __init__(self, *args, **kwargs):
+        super().__init__(*args, **kwargs)
+        # [tag, has_children] for each currently open element.
+        # ElementTree.TreeBuilder itself doesn't check that end tags match the
+        # element they close, or that every element gets closed.
+        self._open_tags: List[list] = []
+
+    def start(self, tag, attrs):
+        if self._open_tags:
+            self._open_tags[-1][1] = True
+        self._open_tags.append([tag, False])
+        return super().start(tag, attrs)
+
+    def end(self, tag):
+        # An element with neither data nor children may omit its end tag
+        # (this is how ``utils.tostring_unclosed_elements()`` writes empty aggregates).
+        while (
+            self._open_tags
+            and self._open_tags[-1][0] != tag
+            and not self._open_tags[-1][1]
+        ):
+            super().end(self._open_tags.pop()[0])
+
+        if not self._open_tags or self._open_tags[-1][0] != tag:
+            opened = self._open_tags[-1][0] if self._open_tags else None
+            raise ParseError(f"End tag </{tag}> doesn't match open tag <{opened}>")
+        self._open_tags.pop()
+        return super().end(tag)
+
+    def close(self):
+        if self._open_tags:
+            raise ParseError(f"Tag <{self._open_tags[-1][0]}> is never closed")
+        return super().close()
 
     def feed(self, data: str) -> None:
         """
